@@ -212,6 +212,10 @@ def run_creation(case: dict, root: str, *, sim_kwargs: dict | None = None, trace
     from sim import fakemp
 
     rec, pids, centers = case_records(case)
+    if p_early := case["patch"].get("extra_pid_column"):
+        # a patch-id column supplied *in addition to* given centres: documented to be ignored
+        rng = np.random.default_rng([case["data"]["data_seed"] & 0xFFFFFFFF, 0xE7A])
+        pids = rng.integers(0, max(1, len(centers) if centers is not None else 1), len(rec["ra"])).astype("i8")
     rec_f, pids_f = _apply_fault_to_data(case, rec, pids)
     fault = case.get("fault") or {}
     kind = fault.get("kind")
@@ -246,7 +250,7 @@ def run_creation(case: dict, root: str, *, sim_kwargs: dict | None = None, trace
 
     # ---- source
     trace: list = []
-    kw = wl.column_kwargs(rec_f, patch_name=(p["mode"] == "divide"))
+    kw = wl.column_kwargs(rec_f, patch_name=(p["mode"] == "divide" or bool(p.get("extra_pid_column"))))
     if kind == "missing_column":
         kw[fault.get("which", "dec_name")] = "no_such_column"
     if not d.get("degrees", True):
@@ -257,7 +261,7 @@ def run_creation(case: dict, root: str, *, sim_kwargs: dict | None = None, trace
         source = wl.TracedFrame(df, trace) if src_kind == "traced" else df
     elif src_kind in ("fits", "hdf5", "parquet"):
         source = os.path.join(root, "input" + wl.SOURCE_EXT[src_kind])
-        wl.write_source(src_kind, source, rec_f, pids_f, pq_seed=d["data_seed"])
+        wl.write_source(src_kind, source, rec_f, pids_f, pq_seed=d["data_seed"], pq_rowgroup=case.get("pq_rowgroup"))
         if kind == "len_mismatch" and src_kind == "hdf5":
             import h5py
 
